@@ -154,7 +154,7 @@ fn replay_of(case: &Case, seed: u64) -> Value {
     json!({"kind":"msm","number":case.n,"sats":case.s,"sigs":case.g,"cells":case.c.iter().map(|x| vec![x.0, x.1]).collect::<Vec<_>>(),"seed":seed.to_string()})
 }
 
-const FAULTS: [&str; 10] = ["satellite_0", "satellite_above_64", "unrecognised_signal", "duplicate_satellite", "duplicate_cell", "satellite_without_cell", "cell_without_satellite", "satellite_row_renamed", "cells_of_satellite_renamed", "more_than_64_mask_cells"];
+const FAULTS: [&str; 12] = ["all_cells_removed", "all_satellite_rows_removed", "satellite_0", "satellite_above_64", "unrecognised_signal", "duplicate_satellite", "duplicate_cell", "satellite_without_cell", "cell_without_satellite", "satellite_row_renamed", "cells_of_satellite_renamed", "more_than_64_mask_cells"];
 
 fn expected_error(fault: &str) -> &'static str {
     match fault {
@@ -162,7 +162,7 @@ fn expected_error(fault: &str) -> &'static str {
         "unrecognised_signal" => "InvalidSignalId",
         "duplicate_satellite" => "DuplicateSatellite",
         "duplicate_cell" => "DuplicateSatelliteSignal",
-        "satellite_without_cell" | "cell_without_satellite" | "satellite_row_renamed" | "cells_of_satellite_renamed" => "SatelliteMismatch",
+        "satellite_without_cell" | "cell_without_satellite" | "satellite_row_renamed" | "cells_of_satellite_renamed" | "all_cells_removed" | "all_satellite_rows_removed" => "SatelliteMismatch",
         _ => "InvalidSatelliteSignalCount",
     }
 }
@@ -311,6 +311,16 @@ fn check_case(ctx: &mut Ctx, rng: &mut Rng, case: &Case, perms: usize, case_seed
             let unused: Vec<u8> = (1..=64u8).filter(|s| !r.sats.contains(s)).collect();
             let unused_sat: Option<u8> = if unused.is_empty() { None } else { Some(*rng.pick(&unused)) };
             match *fault {
+                "all_cells_removed" => {
+                    if let Some(xs) = find_field_mut(&mut fv, "signal_data").and_then(seq_mut) {
+                        xs.clear();
+                    }
+                }
+                "all_satellite_rows_removed" => {
+                    if let Some(xs) = find_field_mut(&mut fv, "satellite_data").and_then(seq_mut) {
+                        xs.clear();
+                    }
+                }
                 "satellite_0" | "satellite_above_64" => {
                     let bad: u8 = if *fault == "satellite_0" { 0 } else { rng.range(65, 255) as u8 };
                     let victim = *rng.pick(&r.sats);
